@@ -122,6 +122,70 @@ def ref_spike_counts(run, sim):
 HEADER = "From Coq Require Import ZArith QArith Qcanon List Bool.\nFrom OdeVerif Require Import Base.Corr Model.AnalyticInt Model.MixedInt Model.MixedIntExec.\nImport ListNotations.\n"
 
 
+def probe_run(si, run_, tl, yl, names, n_num, ivs):
+    """the property text on one simulated run (time, start, bounds, spike bookkeeping); returns (key, what) pairs"""
+    sim = run_["sim"]
+    fails = []
+    if tl[0] != 0.0:
+        fails.append(("time", "trajectory does not start at time 0"))
+    if yl[0][:n_num] != ivs and not any(s <= 0 for ts in run_["spk"].values() for s in ts):
+        fails.append(("time", "trajectory does not start at the initial values: %s vs %s" % (yl[0], ivs)))
+    if any(b <= a for a, b in zip(tl, tl[1:])):
+        fails.append(("time", "time does not advance strictly: %s" % tl))
+    if tl[-1] < sim:
+        fails.append(("time", "simulation ends at %s, before the requested duration %s" % (tl[-1], sim)))
+    if not run_["alias"] and (tl[-1] != sim or any(t >= sim for t in tl[:-1])):
+        fails.append(("time", "precise mode must end exactly at the requested duration %s: %s" % (sim, tl[-3:])))
+    if run_["alias"] and tl[-1] - run_["max_step"] >= sim:
+        fails.append(("time", "aliased mode: the last grid step started at %s, not before the requested duration %s" % (tl[-1] - run_["max_step"], sim)))
+    # bounds: after every step a variable beyond a bound equals its initial value
+    alls = sorted(set(t for ts in run_["spk"].values() for t in ts))
+    for kk_ in range(1, len(tl)):
+        row = yl[kk_]
+        ms = run_["max_step"]
+        on_grid = abs(tl[kk_] / ms - round(tl[kk_] / ms)) < 1e-9
+        spiked = any((not run_["alias"] and s_ == tl[kk_]) or (run_["alias"] and on_grid and tl[kk_] - ms < s_ <= tl[kk_]) or s_ <= 0 for s_ in alls)
+        if spiked:
+            continue       # the logged array also shows the spike increments applied at this boundary
+        for i, nm in enumerate(names[:n_num]):
+            b = run_["bounds"].get(nm, {})
+            if "ub" in b and row[i] > b["ub"] and row[i] != ivs[i]:
+                fails.append(("upper_bound", "%s = %s exceeds its upper bound %s after a step" % (nm, row[i], b["ub"])))
+            if "lb" in b and row[i] < b["lb"] and row[i] != ivs[i]:
+                fails.append(("lower_bound", "%s = %s is below its lower bound %s after a step and was not reset" % (nm, row[i], b["lb"])))
+    # spikes on bound-free, constant-derivative variables: total jump = count * initial value
+    if not run_["bounds"] and si in (0, 1, 3):
+        slopes = {0: [1.0, -0.5], 1: [0.25], 3: [2.0, 0.125, 0.0]}[si]
+        for i in range(n_num):
+            cnt = sum(1 for s in run_["spk"].get(str(i), []) if (s < sim if not run_["alias"] else s <= tl[-1]))
+            exp = ivs[i] + slopes[i] * tl[-1] + cnt * ivs[i]
+            if abs(yl[-1][i] - exp) > 1e-12:
+                fails.append(("spikes", "%s: final value %s, expected %s = initial + slope*T + %d spikes x initial value (each spike before the end applied exactly once)" % (names[i], yl[-1][i], exp, cnt)))
+            # each spike at its own time (precise) / first grid boundary not before it (aliased)
+            ms = run_["max_step"]
+            allsp = run_["spk"].get(str(i), [])
+            for s in sorted(set(t for t in allsp if 0 < t < sim and t <= tl[-1])):
+                if not run_["alias"]:
+                    if s not in tl:
+                        fails.append(("spikes", "precise mode: spike time %s of %s is not a step boundary" % (s, names[i])))
+                        continue
+                    k = tl.index(s)
+                    napplied = sum(1 for s2 in allsp if s2 == s)
+                else:
+                    import math
+                    tb = math.ceil(s / ms - 1e-12) * ms
+                    ks = [j_ for j_, t in enumerate(tl) if abs(t - tb) < 1e-12]
+                    if not ks:
+                        fails.append(("spikes", "aliased mode: grid boundary %s (first one not before the spike at %s) is not in the time log" % (tb, s)))
+                        continue
+                    k = ks[0]
+                    lo = tb - ms if tb - ms > 1e-12 else float("-inf")
+                    napplied = sum(1 for s2 in allsp if lo < s2 <= tb)
+                before = yl[k - 1][i] + slopes[i] * (tl[k] - tl[k - 1])
+                if abs(yl[k][i] - (before + napplied * ivs[i])) > 1e-12:
+                    fails.append(("spikes", "%s: the %d spike(s) due at step boundary %s (among them the one at %s) were not applied there exactly once: value %s, expected %s" % (names[i], napplied, tl[k], s, yl[k][i], before + napplied * ivs[i])))
+    return fails
+
 def run(ctx):
     rng = random.Random(ctx["seed"] * 1303 + 13)
     quick = ctx["tier"] == "quick"
@@ -181,65 +245,7 @@ def run(ctx):
             tl, yl = o["t_log"], o["y_log"]
             sim = run_["sim"]
             # ---------- probes: the property text ----------
-            fails = []
-            if tl[0] != 0.0:
-                fails.append(("time", "trajectory does not start at time 0"))
-            if yl[0][:n_num] != ivs and not any(s <= 0 for ts in run_["spk"].values() for s in ts):
-                fails.append(("time", "trajectory does not start at the initial values: %s vs %s" % (yl[0], ivs)))
-            if any(b <= a for a, b in zip(tl, tl[1:])):
-                fails.append(("time", "time does not advance strictly: %s" % tl))
-            if tl[-1] < sim:
-                fails.append(("time", "simulation ends at %s, before the requested duration %s" % (tl[-1], sim)))
-            if not run_["alias"] and (tl[-1] != sim or any(t >= sim for t in tl[:-1])):
-                fails.append(("time", "precise mode must end exactly at the requested duration %s: %s" % (sim, tl[-3:])))
-            if run_["alias"] and tl[-1] - run_["max_step"] >= sim:
-                fails.append(("time", "aliased mode: the last grid step started at %s, not before the requested duration %s" % (tl[-1] - run_["max_step"], sim)))
-            # bounds: after every step a variable beyond a bound equals its initial value
-            alls = sorted(set(t for ts in run_["spk"].values() for t in ts))
-            for kk_ in range(1, len(tl)):
-                row = yl[kk_]
-                ms = run_["max_step"]
-                on_grid = abs(tl[kk_] / ms - round(tl[kk_] / ms)) < 1e-9
-                spiked = any((not run_["alias"] and s_ == tl[kk_]) or (run_["alias"] and on_grid and tl[kk_] - ms < s_ <= tl[kk_]) or s_ <= 0 for s_ in alls)
-                if spiked:
-                    continue       # the logged array also shows the spike increments applied at this boundary
-                for i, nm in enumerate(names[:n_num]):
-                    b = run_["bounds"].get(nm, {})
-                    if "ub" in b and row[i] > b["ub"] and row[i] != ivs[i]:
-                        fails.append(("upper_bound", "%s = %s exceeds its upper bound %s after a step" % (nm, row[i], b["ub"])))
-                    if "lb" in b and row[i] < b["lb"] and row[i] != ivs[i]:
-                        fails.append(("lower_bound", "%s = %s is below its lower bound %s after a step and was not reset" % (nm, row[i], b["lb"])))
-            # spikes on bound-free, constant-derivative variables: total jump = count * initial value
-            if not run_["bounds"] and si in (0, 1, 3):
-                slopes = {0: [1.0, -0.5], 1: [0.25], 3: [2.0, 0.125, 0.0]}[si]
-                for i in range(n_num):
-                    cnt = sum(1 for s in run_["spk"].get(str(i), []) if (s < sim if not run_["alias"] else s <= tl[-1]))
-                    exp = ivs[i] + slopes[i] * tl[-1] + cnt * ivs[i]
-                    if abs(yl[-1][i] - exp) > 1e-12:
-                        fails.append(("spikes", "%s: final value %s, expected %s = initial + slope*T + %d spikes x initial value (each spike before the end applied exactly once)" % (names[i], yl[-1][i], exp, cnt)))
-                    # each spike at its own time (precise) / first grid boundary not before it (aliased)
-                    ms = run_["max_step"]
-                    allsp = run_["spk"].get(str(i), [])
-                    for s in sorted(set(t for t in allsp if 0 < t < sim and t <= tl[-1])):
-                        if not run_["alias"]:
-                            if s not in tl:
-                                fails.append(("spikes", "precise mode: spike time %s of %s is not a step boundary" % (s, names[i])))
-                                continue
-                            k = tl.index(s)
-                            napplied = sum(1 for s2 in allsp if s2 == s)
-                        else:
-                            import math
-                            tb = math.ceil(s / ms - 1e-12) * ms
-                            ks = [j_ for j_, t in enumerate(tl) if abs(t - tb) < 1e-12]
-                            if not ks:
-                                fails.append(("spikes", "aliased mode: grid boundary %s (first one not before the spike at %s) is not in the time log" % (tb, s)))
-                                continue
-                            k = ks[0]
-                            lo = tb - ms if tb - ms > 1e-12 else float("-inf")
-                            napplied = sum(1 for s2 in allsp if lo < s2 <= tb)
-                        before = yl[k - 1][i] + slopes[i] * (tl[k] - tl[k - 1])
-                        if abs(yl[k][i] - (before + napplied * ivs[i])) > 1e-12:
-                            fails.append(("spikes", "%s: the %d spike(s) due at step boundary %s (among them the one at %s) were not applied there exactly once: value %s, expected %s" % (names[i], napplied, tl[k], s, yl[k][i], before + napplied * ivs[i])))
+            fails = probe_run(si, run_, tl, yl, names, n_num, ivs)
             for key, what in fails[:2]:
                 kk = "lower bound not enforced" if key == "lower_bound" else "%s: %s" % (key, C.stable_hash([si, run_]))
                 probe_failures.append({"key": kk, "what": what + " | system %s run %s" % (SYSTEMS[si][0]["dynamics"], run_), "replay": {"system": si, "run": run_, "before": before}})
@@ -295,13 +301,6 @@ def replay(payload):
         return False, "run failed: %s" % str(r)[:300]
     o = r["outs"][0]
     names, ivs = r["names"], r["ivs"]
-    if o["y_log"][0][:len(ivs)] != ivs and not any(s_ <= 0 for ts in rp["run"]["spk"].values() for s_ in ts):
-        return False, "trajectory starts at %s, the initial values are %s" % (o["y_log"][0], ivs)
-    for row in o["y_log"][1:]:
-        for i, nm in enumerate(names[:len(ivs)]):
-            b = rp["run"]["bounds"].get(nm, {})
-            if "lb" in b and row[i] < b["lb"] and row[i] != ivs[i]:
-                return False, "%s = %s below lower bound %s, not reset" % (nm, row[i], b["lb"])
-            if "ub" in b and row[i] > b["ub"] and row[i] != ivs[i]:
-                return False, "%s = %s above upper bound %s, not reset" % (nm, row[i], b["ub"])
-    return True, "bounds respected on replay"
+    nnum = {0: 2, 1: 1, 2: 1, 3: 3}[rp["system"]]
+    fails = probe_run(rp["system"], rp["run"], o["t_log"], o["y_log"], names, nnum, ivs)
+    return (not fails), "probe on the replayed run: %s" % (fails[:2] or "no failure")
